@@ -1187,7 +1187,7 @@ func (e *Engine) findIndicesAtWithState(haystack []byte, at int, state *SearchSt
 	case UseReverseSuffix:
 		return e.reverseSuffixSearcher.FindIndicesAtWithCaches(haystack, at, state.stratFwdCache, state.stratRevCache)
 	case UseReverseSuffixSet:
-		return e.reverseSuffixSetSearcher.FindIndicesAtWithCaches(haystack, at, state.stratRevCache)
+		return e.reverseSuffixSetSearcher.FindIndicesAtWithCaches(haystack, at, state.stratFwdCache, state.stratRevCache)
 	case UseReverseInner:
 		return e.reverseInnerSearcher.FindIndicesAtWithCaches(haystack, at, state.stratFwdCache, state.stratRevCache)
 	case UseBoundedBacktracker:
